@@ -2,6 +2,7 @@ SPECIFICATION Spec
 CONSTANTS
   MaxLeaves = 3
   MaxArity = 3
+  FullUpTo = 3
 INVARIANT L_Domain
 INVARIANT L_LeafRoundTrip
 INVARIANT L_ByPosition
